@@ -484,6 +484,35 @@ def probe_histories():
                             return ('after relaxing a signomial with the same exponents %s and coefficients %s (presolve on), the %s bound of the '
                                     'signomial with coefficients %s and presolve_trivial_age_cones=%s is %r; without that history it is %r'
                                     % (alpha, c_bad, form, c_good, pre, got, ref))
+            # (3) a term with a PRIVATE variable (one that no term of its cover uses), compact versus epigraph encoding of the dual cones
+            y = so.standard_sig_monomials(2)
+            for label, build in (('-2 + e^x0 + e^-x0 - 0.5 e^x1 (unbounded below)', lambda: ss.sig_relaxation(-2 + y[0] + y[0] ** -1 - 0.5 * y[1], form='dual')),
+                                 ('min e^x0 + e^-x0 s.t. 2 - e^x1 >= 0 (p = 1)', lambda: ss.sig_constrained_relaxation(y[0] + y[0] ** -1, [2 - y[1]], [], form='dual', p=1)),
+                                 ('min e^x0 + e^-x0 + e^-x1 s.t. 2 - e^x1 >= 0', lambda: ss.sig_constrained_relaxation(y[0] + y[0] ** -1 + y[1] ** -1, [2 - y[1]], [], form='dual'))):
+                got = {}
+                for comp in (True, False):
+                    sc.SETTINGS.update(saved)
+                    cl.compact_sage_duals(comp)
+                    got[comp] = build().solve(verbose=False)
+                a, b = got[True], got[False]
+                if a[0] != b[0] or not (a[1] == b[1] or (math.isfinite(a[1]) and math.isfinite(b[1]) and abs(a[1] - b[1]) <= 1e-4 * (1 + abs(a[1])))):
+                    return 'dual bound of %s is %r with compact_dual=True and %r with compact_dual=False' % (label, a, b)
+            # (4) kernel_basis=True when the exponents lie in a proper affine subspace (an unused variable; all exponents on one line)
+            for alpha, cc in (([[0, 0], [2, 0], [4, 0], [1, 0]], [3, 1, 1, -3]), ([[0, 0], [1, 1], [2, 2], [3, 3]], [3, -3, 1, 1]),
+                              ([[0, 0, 0], [2, 0, 0], [0, 2, 0], [1, 1, 0], [1, 0, 0]], [1, 1, 1, -1.5, -0.5])):
+                fk = so.Signomial(np.array(alpha, dtype=float), np.array(cc, dtype=float))
+                got = {}
+                for kb in (False, True):
+                    sc.SETTINGS.update(saved)
+                    cl.kernel_basis_age_witnesses(kb)
+                    try:
+                        got[kb] = ss.sig_relaxation(fk, form='primal').solve(verbose=False)
+                    except RuntimeError:
+                        got[kb] = ('solved', -math.inf)
+                a, b = got[False], got[True]
+                if a[0] == b[0] == 'solved' and not (a[1] == b[1] or (math.isfinite(a[1]) and math.isfinite(b[1]) and abs(a[1] - b[1]) <= 1e-4 * (1 + abs(a[1])))):
+                    return ('primal bound of the signomial with exponents %s (a proper affine subspace), coefficients %s is %r with kernel_basis=False and '
+                            '%r with kernel_basis=True' % (alpha, cc, a[1], b[1]))
             # (2) global options changed after a constraint was declared and before the Problem is compiled
             alpha5 = np.array([[0.0, 0.0], [2.0, 0.0], [0.0, 2.0], [1.0, 1.0], [1.0, 0.0]])
 
